@@ -84,6 +84,14 @@ def run(rep, tier, seed):
             cfg = dict(textc.CONFIGS[(j + v * 3) % len(textc.CONFIGS)])
             cfg.update(cfg0)
             cases.append({"k": f"c02-{j}-{v}", "xml": xml, "cfg": cfg, "case": c})
+    # references to entities nobody declared, in the text-only content of non-graphics containers
+    for j, body in enumerate(['<title>a &nbsp; b</title><rect wh="2"/>', '<desc>&deg;&rarr;</desc><rect wh="2"/>',
+                              '<style>.a::before { content: "&rarr;"; }</style><rect wh="2" class="a"/>',
+                              '<text xy="0 0"><tspan>&nbsp;x</tspan></text>', '<rect wh="9" text="&nbsp;"/>', '<rect wh="9">&copy; 2020</rect>',
+                              '<g><title>&nbsp;</title><rect wh="1"/></g>', '<a href="x"><desc>&amp;nbsp; &nbsp;</desc></a>']):
+        for v in range(2):
+            cases.append({"k": f"c02e-{j}-{v}", "xml": f"<svg>{body}</svg>", "cfg": dict(textc.CONFIGS[(j + 5 * v) % len(textc.CONFIGS)]),
+                          "case": {"fam": "wf", "src": "undeclared-entity", "kind": "text", "s": []}})
     roots = text_family(rep, "root", [], 0)
     for j, c in enumerate(roots):
         for v in range(2):
